@@ -80,6 +80,22 @@ def _prov_exempt(f: Func, bounds: "Bounds", s: ast.Subscript) -> str:
         if names is None:
             return ""
         prov |= names
+    # a wrapper every return of which is the call of a scanner (`_skipListMarker(state, line, ordered)`) stands for those scanners
+    for _ in range(2):
+        more: set[str] = set()
+        for nm in sorted(prov):
+            h = bounds.c.p.resolve_name(f.module, nm)
+            h = h if isinstance(h, Func) and h.cls is None else None
+            rets = [x for x in own_nodes(h.node) if isinstance(x, ast.Return)] if h is not None else []
+            if h is not None and rets and all(isinstance(x.value, ast.Call) and isinstance(x.value.func, (ast.Name, ast.Attribute)) for x in rets) \
+                    and not any(nm2 == nm for x in rets for nm2 in (_callee_names(bounds, x.value.func) or {nm})) \
+                    and not any(a_nm in {y.id for x in rets for y in ast.walk(x.value.func) if isinstance(y, ast.Name)}
+                                for a_nm in [a.arg for a in h.node.args.args]):
+                for x in rets:
+                    more |= ({x.value.func.id} if isinstance(x.value.func, ast.Name) else {x.value.func.attr})
+            else:
+                more.add(nm)
+        prov = more
     for (rel, allowed, off, why) in PROV_EXEMPT:
         if f.module.rel == rel and prov and prov <= allowed and l[1] == off:
             return why
@@ -1152,8 +1168,10 @@ def _record_index(f: Func, sub: ast.Subscript, bounds: "Bounds") -> bool:
             return True
         if isinstance(q, ast.If) and isinstance(q.test, ast.Name) and any(x is sub for b_ in q.body for x in ast.walk(b_)):
             # `if flag:` where flag is defined once, as a conjunction containing the equality
+            # (or also initialised to a falsy constant: under `if flag:` the conjunction is the definition in force)
             ds = bounds.defs.get(q.test.id)
-            if ds and len(ds) == 1 and ds[0] is not None and has_eq(ds[0]):
+            live = [d for d in (ds or []) if not (isinstance(d, ast.Constant) and not d.value)]
+            if ds and len(live) == 1 and live[0] is not None and has_eq(live[0]) and all(d is not None for d in ds):
                 return True
         q = f.module.parents.get(q)
     return False
